@@ -210,30 +210,52 @@ def r02_4(ctx):
 
 
 def r02_5(ctx):
-    """The RtMidi callback only catches what from_bytes raises."""
+    """The RtMidi callback survives device data that is not one well-formed message: the callback wrapper is interpreted on an
+    Input whose queue is a recording double, with (bytes, delta) pairs holding a complete message, a message cut short, a data
+    byte out of range and nothing at all; it must return normally each time and hand over exactly the complete message.
+    (Where the handler for what from_bytes raises sits - in the wrapper, in a helper - makes no difference.)"""
+    from .. import portmodel as pm
     try:
         fn = ctx.p.func('mido.backends.rtmidi', 'Input._callback_wrapper')
+        cls = ctx.p.cls('mido.backends.rtmidi', 'Input')
     except AnalysisError:
         ctx.notes.append('rtmidi backend callback not found')
         ctx.floor('R02.5', 0, 1)
         return
     ctx.fn(fn)
+    w = ctx.where(fn)
+    item_dom = codec.data_byte_domain(ctx)[2]
     n = 0
-    for c in astq.calls(fn.node):
-        if isinstance(c.func, ast.Attribute) and c.func.attr == 'from_bytes':
-            n += 1
-            ctx.call_sites += 1
-            # enclosing try with a handler for ValueError
-            ok = False
-            for anc in astq.enclosing_stmt_chain(c):
-                if isinstance(anc, ast.Try) and any(astq.contains_node(s, c) for s in anc.body):
-                    for h in anc.handlers:
-                        if any(exc_is('ValueError', hn) for hn in handler_names(h)):
-                            ok = True
-            ctx.require(ok, 'R02.5', 'rtmidi-callback', ctx.where(fn, c),
-                        'Message.from_bytes is called on device data without a handler for ValueError',
-                        construct=f'{fn.qname}::handler')
-    ctx.floor('R02.5', n, 1)
+    for label, data, want in (('complete note_on', [0x90, 60, 64], 1), ('note_on cut short', [0x90, 60], 0), ('data byte 200', [0x90, 200, 1], 0),
+                              ('no bytes', [], 0), ('two messages', [0x90, 60, 64, 0x80, 60, 64], 0), ('real-time byte', [0xf8], 1)):
+        ai = pm.make_interp(ctx)
+        ref_ai = _interp(ctx, item_dom)
+        key = 'mido/messages/checks.py::check_data'
+        ai.summaries[key] = ref_ai.summaries[key]           # the item check with its real domain (R02.3)
+        ai.check_data_calls = []
+        got = []
+
+        def put(interp, base, args, kwargs, node, got=got):
+            got.append(args[0] if args else None)
+            return None
+        q = pm.AMock('ParserQueue', {'put': put})
+
+        def thunk(ai=ai, q=q, data=data, got=got):
+            del got[:]
+            port = AObj(cls, {'_callback': None, '_queue': q}, name='Input')
+            return ai.call_function(fn, [port, AList([AList(list(data), 'list'), 0.0], 'tuple'), None], {}, None)
+        outs = ai.explore(thunk)
+        n += 1
+        ctx.call_sites += 1
+        ok = len(outs) == 1 and outs[0].kind == 'return'
+        ctx.require(ok, 'R02.5', f'rtmidi-callback[{label}]', w,
+                    f'the RtMidi callback does not return normally for device data {data}: {outs} {[[d[2] for d in o.decisions] for o in outs]} (Message.from_bytes raises ValueError for '
+                    'malformed data; an exception in the callback thread kills input)', construct=f'{fn.qname}::handler')
+        if ok:
+            types = [m.attrs.get('type') for m in got if isinstance(m, AObj)]
+            ctx.require(len(got) == want and len(types) == want, 'R02.5', f'rtmidi-callback[{label}].delivered', w,
+                        f'device data {data}: {len(got)} messages handed over ({types}), expected {want}', construct=f'{fn.qname}::delivers')
+    ctx.floor('R02.5', n, 6)
 
 
 def r02_7(ctx):
